@@ -104,10 +104,11 @@ DReqFrom(b, ops, cap) ==
   ELSE <<DObl(b, Head(ops))>> \o DReqFrom(DAfter(b, Head(ops), cap), Tail(ops), cap)
 DReq(ops, cap) == DReqFrom(DBind0, ops, cap)
 
-\* usage discipline of every client of connect.Decompressor in the repository and in the RPC
-\* library: the first call is Reset, and an instance whose Reset reported an error is not read or
-\* closed - it is dropped (pool) or Reset again (tracer).  (Outside it *gzip.Reader panics on
-\* Close after a failed first Reset; see MC_Compress_nodiscipline.cfg.)
+\* usage discipline.  Rule 1: the first call on an instance is Reset (every client; before it the
+\* wrappers hold nil pointers).  Rule 2: an instance whose Reset reported an error is not read or
+\* closed but dropped (pool) or Reset again (tracer) - what the repository's clients happen to do,
+\* NOT something the wrappers may rely on: the theorem is checked with rule 1 only.
+\* level "full" = both rules, "first" = rule 1, "none" = no rule.
 DDiscipline(level, lastOp, lastRet, op) ==
   /\ level \in {"full", "first"} => (lastOp = None => op.o = "Reset")
   /\ level = "full" => ((lastOp = "Reset" /\ lastRet = "err") => op.o = "Reset")
